@@ -27,7 +27,7 @@ def run_cases(draw):
     m = draw(st.integers(1, 3))
     fails = []
     if draw(st.booleans()):
-        starts = draw(st.lists(st.integers(0, 60), min_size=1, max_size=4, unique=True))
+        starts = draw(st.lists(st.one_of(st.integers(0, 9), st.integers(0, 60)), min_size=1, max_size=4, unique=True))
         for s in starts:
             fails.extend(range(s, s + draw(st.integers(1, 2))))
         fails = sorted(set(fails))
@@ -117,7 +117,9 @@ def check_run(case):
             dropped = [i for v, i in cur.items() if v not in nxt]
             for s in nxt.values():
                 for d in dropped:
-                    if O.verdict(list(d.costs_signed), list(s.costs_signed)) == 1:
+                    # the harness problem has no constraints: every design is equally feasible, so the comparison
+                    # is on the objectives alone (a marker that differs between designs must not excuse a loss)
+                    if O.dominates_obj(list(d.costs_signed[:-1]), list(s.costs_signed[:-1])):
                         raise Violation("runs", "NSGAII:elitism", "generation %d keeps %r (costs %r) although the dropped "
                                         "design %r of generation %d (costs %r) dominates it" % (
                                             g + 1, s.vector, s.costs_signed, d.vector, g, d.costs_signed))
